@@ -6,6 +6,7 @@ import (
 	"crypto/rsa"
 	"crypto/sha256"
 	"crypto/x509"
+	"encoding/pem"
 	"fmt"
 	"math/big"
 
@@ -31,7 +32,7 @@ func init() {
 			"Key ids: TokenKeyID() of type 1/2/3/5 issuers == SHA-256(reference serialization) and requests of types 1, 2, 5 carry byte 31 of it (keys whose id has different first and last bytes); type-3 requests carry SHA-256(reference EncapKey encoding) as name key id. " +
 			"Related keys in sequence: issuers over the same modulus with different exponents, keys whose hex(N)||hex(E) coincide decoded back to back in both forms, keys decoded from accepted encodings with other PSS parameters / trailing bytes must encode to the prescribed DER (and give its SHA-256 as key id), name keys decoded from encoding||trailing bytes. " +
 			"distinct_nontrivial = distinct (modulus byte length, top bit, exponent class) and (issuer type, key) keys",
-		Floors:      []string{"pss_der_equals_reference", "legacy_der_equals_reference", "unmarshal_inverts_pss", "unmarshal_inverts_legacy", "x509_accepts_legacy", "rust_pks_anchor", "key_id_type1", "key_id_type2", "key_id_type3", "key_id_type5", "truncated_key_id_last_byte", "name_key_id", "name_key_id_decoded_suites", "key_id_same_modulus_other_exponent", "related_keys_decoded_back_to_back", "decoded_key_encodes_to_prescribed_der"},
+		Floors:      []string{"pss_der_equals_reference", "legacy_der_equals_reference", "unmarshal_inverts_pss", "unmarshal_inverts_legacy", "x509_accepts_legacy", "rust_pks_anchor", "key_id_type1", "key_id_type2", "key_id_type3", "key_id_type5", "truncated_key_id_last_byte", "name_key_id", "name_key_id_decoded_suites", "key_id_same_modulus_other_exponent", "related_keys_decoded_back_to_back", "decoded_key_encodes_to_prescribed_der", "modulus_containing_pem_block", "key_id_odd_size_moduli"},
 		Assumptions: []string{"encoding needs no factorisation: synthetic moduli are arbitrary positive integers", "go-hpke's X25519 key derivation and crypto/x509 are trusted"},
 		Run:         runC18,
 	})
@@ -198,6 +199,54 @@ func c18Related(c *core.Ctx, rk []*rsa.PrivateKey) {
 			}
 		}
 		c.Distinctf("related:hexconcat:%d", ki)
+	}
+	// (b2) a modulus whose bytes contain the PEM armour of ANOTHER valid key (a decoder that also "accepts PEM" must not
+	// find it), and key ids of issuers whose modulus is a few bits short of a byte boundary (no DER sign octet)
+	if c.Next() {
+		r := c.CaseRng()
+		other := rk[1%len(rk)]
+		for _, legacy := range []bool{false, true} {
+			inner := ref.SPKIRSAPSS(other.N, other.E)
+			if legacy {
+				inner = ref.SPKIRSAEncryption(other.N, other.E)
+			}
+			pemBlock := pem.EncodeToMemory(&pem.Block{Type: "PUBLIC KEY", Bytes: inner})
+			body := append([]byte{0xc3}, r.Bytes(40)...)
+			body = append(body, '\n')
+			body = append(body, pemBlock...)
+			body = append(body, r.Bytes(33)...)
+			body[len(body)-1] |= 1
+			c18Key(c, new(big.Int).SetBytes(body), 65537, fmt.Sprintf("syn:pem-inside-modulus:legacy=%v", legacy))
+			c.Class("modulus_containing_pem_block")
+		}
+		for bits := 2033; bits <= 2056; bits++ {
+			n := new(big.Int).SetBytes(r.Bytes((bits + 7) / 8))
+			n.SetBit(n, bits-1, 1)
+			for i := bits; i < 8*((bits+7)/8); i++ {
+				n.SetBit(n, i, 0)
+			}
+			n.SetBit(n, 0, 1)
+			for _, e := range []int{65537, 3} {
+				c.Eval(1)
+				want := sha256.Sum256(ref.SPKIRSAPSS(n, e))
+				key := &rsa.PrivateKey{PublicKey: rsa.PublicKey{N: n, E: e}}
+				d := map[string]any{"modulus_bits": bits, "exponent": e, "modulus": n.Text(16)}
+				pan, pv, where := core.Guard(func() {
+					if got := type2.NewBasicPublicIssuer(key).TokenKeyID(); !bytes.Equal(got, want[:]) {
+						c.Violation("keyid:type2:odd-size-modulus", "type-2 TokenKeyID is not SHA-256 of the serialized public key for a modulus that is not a whole number of bytes", d)
+						return
+					}
+					if got := type3.NewRateLimitedIssuer(key).TokenKeyID(); !bytes.Equal(got, want[:]) {
+						c.Violation("keyid:type3:odd-size-modulus", "type-3 TokenKeyID is not SHA-256 of the serialized public key for a modulus that is not a whole number of bytes", d)
+						return
+					}
+					c.Class("key_id_odd_size_moduli")
+				})
+				if pan {
+					c.Violation("keyid:panic:"+where, "panic: "+pv, d)
+				}
+			}
+		}
 	}
 	// (c) other PSS parameters / trailing bytes: whatever the decoder accepts must re-encode to the prescribed DER
 	for ki, k := range rk[:min(len(rk), 4)] {
